@@ -117,6 +117,7 @@ PAIRS = {
     'SlicedPacketCursor::slice_ip': ['h_pairs::c07_offsets_from_ip_v4', 'h_pairs::c07_offsets_from_ip_v6'],
     '::read_transport': ['h_pairs::c04_slim_ip_v4_udp', 'h_pairs::c04_slim_ip_v6_udp'],
     'Ipv6Extensions::from_slice': ['h_pairs::p_ext_struct_walk'],
+    'Ipv6Extensions::from_slice_lax': ['h_pairs::p_ext_struct_walk_lax'],
     # checksums: protocol-level harnesses with the RFC oracle (small payloads) + the 64 KiB boundary harnesses
     'UdpHeader::calc_checksum_post_ip': ['h_builder::c09_k_proto_udp_ipv4', 'h_builder::c09_k_proto_udp_ipv6'],
     'UdpHeader::calc_checksum_ipv4_internal': ['h_builder::c09_k_proto_udp_ipv4'],
@@ -170,23 +171,23 @@ harness('h_tcpopt::c13_tcpopt_from_array_40', ['C13'], 'complete (all [u8;40], s
 harness('h_roundtrip::c08_rt_ethernet2', ['C08'], 'complete (loop-free, all 2^112 values)', 'Ethernet2Header: to_bytes/write/write_to_slice agree, layout, from_slice/from_bytes/read give value back', tier='quick', bound='none', timeout=300, heavy=False)
 harness('h_roundtrip::c08_br_ethernet2', ['C08'], 'complete (all 14-byte strings + tail)', 'Ethernet2Header: decode->encode reproduces input, no mask', tier='quick', bound='none', timeout=300, heavy=False)
 harness('h_roundtrip::c15_nobleed_single_vlan', ['C15'], 'complete (all fields symbolic)', 'SingleVlanHeader: bytes == pcp<<13|dei<<12|vid, ether type', tier='quick', bound='none', timeout=300, heavy=False)
-harness('h_roundtrip::c08_rt_single_vlan', ['C08'], 'complete', 'SingleVlanHeader value->bytes->value (to_bytes, write, from_slice, from_bytes, read)', tier='quick', bound='none', timeout=300, heavy=False)
+harness('h_roundtrip::c08_rt_single_vlan', ['C08', 'C15'], 'complete', 'SingleVlanHeader value->bytes->value (to_bytes, write, from_slice, from_bytes, read)', tier='quick', bound='none', timeout=300, heavy=False)
 harness('h_roundtrip::c08_br_single_vlan', ['C08'], 'complete (all 4-byte strings + tail)', 'SingleVlanHeader bytes->value->bytes, no mask', tier='quick', bound='none', timeout=300, heavy=False)
 harness('h_roundtrip::c08_rt_linux_sll', ['C08'], 'complete (packet type 0..=7, 5 supported ARPHRD, typed protocol variant)', 'LinuxSllHeader value->bytes->value + layout, write, write_to_slice, from_slice, from_bytes, read', tier='quick', bound='none', timeout=300, heavy=False)
 harness('h_roundtrip::c08_br_linux_sll', ['C08'], 'complete (all 16-byte strings + tail)', 'LinuxSllHeader: accepted iff ptype<=7 & ARPHRD supported; typed variant chosen; re-encode == input', tier='quick', bound='none', timeout=300, heavy=False)
 harness('h_roundtrip::c08_rt_udp', ['C08'], 'complete', 'UdpHeader value->bytes->value + layout', tier='quick', bound='none', timeout=300, heavy=False)
 harness('h_roundtrip::c08_br_udp', ['C08'], 'complete', 'UdpHeader bytes->value->bytes, no mask', tier='quick', bound='none', timeout=300, heavy=False)
 harness('h_roundtrip::c15_nobleed_ipv6', ['C15'], 'complete', 'Ipv6Header: word0 == 6<<28|tc<<20|flow, remaining bytes per RFC 8200', tier='quick', bound='none', timeout=300, heavy=False)
-harness('h_roundtrip::c08_rt_ipv6', ['C08'], 'complete', 'Ipv6Header value->bytes->value (to_bytes, write, from_slice, read)', tier='quick', bound='none', timeout=300, heavy=False)
+harness('h_roundtrip::c08_rt_ipv6', ['C08', 'C15'], 'complete', 'Ipv6Header value->bytes->value (to_bytes, write, from_slice, read)', tier='quick', bound='none', timeout=300, heavy=False)
 harness('h_roundtrip::c08_br_ipv6', ['C08'], 'complete (all 40-byte strings + tail)', 'Ipv6Header: accepted iff version 6; re-encode == input', tier='quick', bound='none', timeout=300, heavy=False)
 harness('h_roundtrip::c15_nobleed_ipv6_frag', ['C15'], 'complete', 'Ipv6FragmentHeader: bytes 2-3 == off<<3|M, reserved byte and Res bits zero', tier='quick', bound='none', timeout=300, heavy=False)
-harness('h_roundtrip::c08_rt_ipv6_frag', ['C08'], 'complete', 'Ipv6FragmentHeader value->bytes->value', tier='quick', bound='none', timeout=300, heavy=False)
+harness('h_roundtrip::c08_rt_ipv6_frag', ['C08', 'C15'], 'complete', 'Ipv6FragmentHeader value->bytes->value', tier='quick', bound='none', timeout=300, heavy=False)
 harness('h_roundtrip::c08_br_ipv6_frag', ['C08'], 'complete', 'Ipv6FragmentHeader bytes->value->bytes, mask = reserved byte 1 + Res bits 2..1 of byte 3', tier='quick', bound='none', timeout=300, heavy=False)
 harness('h_roundtrip::c15_nobleed_macsec', ['C15'], 'complete (all 4 sizes 6/8/14/16)', 'MacsecHeader: TCI/AN bit formula, V=0, SL upper bits 0, PN, SCI, ether type, length', tier='quick', bound='none', timeout=300, heavy=False)
-harness('h_roundtrip::c08_rt_macsec', ['C08'], 'complete (all 4 sizes; excludes Unmodified with short_len 1)', 'MacsecHeader value->bytes->value (to_bytes, write, from_slice, read)', tier='quick', bound='none', timeout=300, heavy=False)
+harness('h_roundtrip::c08_rt_macsec', ['C08', 'C15'], 'complete (all 4 sizes; excludes Unmodified with short_len 1)', 'MacsecHeader value->bytes->value (to_bytes, write, from_slice, read)', tier='quick', bound='none', timeout=300, heavy=False)
 harness('h_roundtrip::c08_br_macsec', ['C08'], 'complete (all strings of length 0..=16)', 'MacsecHeader bytes->value->bytes, mask = bits 8,7 of SL octet; V=1 rejected', tier='quick', bound='none', timeout=300, heavy=False)
 harness('h_roundtrip::c15_nobleed_ipv4', ['C15'], 'complete (all fields, options 0,4..40)', 'Ipv4Header::to_bytes == RFC 791 per-byte formula, reserved flag 0', tier='quick', bound='none', timeout=300, heavy=False)
-harness('h_roundtrip::c08_rt_ipv4', ['C08'], 'complete (options 0,4..40; unwind 65)', 'Ipv4Header: to_bytes len, write_raw == to_bytes, from_slice/read give value back', tier='thorough', bound='none', timeout=582, heavy=False)
+harness('h_roundtrip::c08_rt_ipv4', ['C08', 'C15'], 'complete (options 0,4..40; unwind 65)', 'Ipv4Header: to_bytes len, write_raw == to_bytes, from_slice/read give value back', tier='thorough', bound='none', timeout=582, heavy=False)
 harness('h_roundtrip::c08_rt_ipv4_write', ['C08'], 'complete modulo stubbed calc_header_checksum (unwind 65)', 'Ipv4Header::write == to_bytes except checksum bytes == calc_header_checksum(); decode gives value with checksum filled', tier='quick', bound='none', timeout=300, heavy=False)
 harness('h_roundtrip::c08_br_ipv4', ['C08'], 'complete (all strings of length 0..=60; unwind 65)', 'Ipv4Header bytes->value->bytes, mask = reserved flag bit; acceptance condition', tier='thorough', bound='none', timeout=366, heavy=False)
 harness('h_roundtrip::c08_rt_tcp', ['C08'], 'complete (all flags, raw options 0..=40 incl. padding; unwind 65)', 'TcpHeader layout per RFC 9293, set_options_raw padding, to_bytes == write, from_slice gives value back', tier='thorough', bound='none', timeout=1086, heavy=False)
@@ -197,7 +198,7 @@ harness('h_roundtrip::c08_rt_icmpv4_read', ['C08'], 'complete (same domain)', 'I
 harness('h_roundtrip::c08_br_icmpv4', ['C08'], 'complete (all strings of length 0..=24)', 'Icmpv4Header bytes->value->bytes with per-(type,code) mask of unused bytes; typed variant iff known pair', tier='thorough', bound='none', timeout=456, heavy=False)
 harness('h_roundtrip::c08_rt_icmpv6', ['C08'], 'complete (every typed variant + Unknown)', 'Icmpv6Header layout per RFC 4443/4861, write, from_slice, read', tier='thorough', bound='none', timeout=390, heavy=False)
 harness('h_roundtrip::c08_br_icmpv6', ['C08'], 'complete (all strings of length 0..=12)', 'Icmpv6Header bytes->value->bytes with per-(type,code) mask', tier='quick', bound='none', timeout=300, heavy=False)
-harness('h_roundtrip::c08_rt_igmp', ['C08'], 'complete (all 7 variants)', 'IgmpHeader layout, to_bytes len == header_len, from_slice gives value back', tier='quick', bound='none', timeout=300, heavy=False)
+harness('h_roundtrip::c08_rt_igmp', ['C08', 'C15'], 'complete (all 7 variants)', 'IgmpHeader layout, to_bytes len == header_len, from_slice gives value back', tier='quick', bound='none', timeout=300, heavy=False)
 harness('h_roundtrip::c08_br_igmp', ['C08'], 'complete (all strings of length 0..=14)', 'IgmpHeader bytes->value->bytes, mask = byte 1 of reports/leave; 8 vs >=12 byte query split', tier='quick', bound='none', timeout=300, heavy=False)
 harness('h_roundtrip::c15_nobleed_igmp_query_with_sources', ['C15'], 'complete', 'MembershipQueryWithSourcesHeader: set_flags/set_s_flag/set_qrv in 3 orders -> byte 8 == Resv<<4|S<<3|QRV, other bytes own fields', tier='quick', bound='none', timeout=300, heavy=False)
 harness('h_roundtrip::c08_rt_arp_eth_ipv4', ['C08'], 'complete (all values)', 'ArpEthIpv4Packet layout (RFC 826), == to_arp_packet().to_bytes(), ArpPacket::from_slice + try_eth_ipv4 give value back', tier='thorough', bound='none', timeout=564, heavy=False)
@@ -272,16 +273,16 @@ harness('h_io::c06_read_vs_slice_linux_sll', ['C06', 'C01'], 'complete (all byte
 harness('h_io::c16_read_fail_linux_sll', ['C16'], 'complete', 'LinuxSllHeader::read reader fault at k (valid encodings)', tier='quick', bound='none', timeout=300)
 harness('h_io::c16_write_fail_linux_sll', ['C16'], 'complete', 'LinuxSllHeader::write writer fault at k', tier='quick', bound='none', timeout=300)
 harness('h_io::c16_slice_space_linux_sll', ['C16'], 'complete', 'LinuxSllHeader::write_to_slice space error / canaries', tier='quick', bound='none', timeout=300)
-harness('h_io::c06_read_vs_slice_single_vlan', ['C06'], 'complete (0..=7 B)', 'SingleVlanHeader read vs from_slice', tier='quick', bound='none', timeout=300)
+harness('h_io::c06_read_vs_slice_single_vlan', ['C06', 'C15'], 'complete (0..=7 B)', 'SingleVlanHeader read vs from_slice', tier='quick', bound='none', timeout=300)
 harness('h_io::c16_read_fail_single_vlan', ['C16'], 'complete', 'SingleVlanHeader::read reader fault', tier='quick', bound='none', timeout=300)
 harness('h_io::c16_write_fail_single_vlan', ['C16'], 'complete', 'SingleVlanHeader::write writer fault', tier='quick', bound='none', timeout=300)
-harness('h_io::c06_read_vs_slice_macsec', ['C06'], 'complete (0..=19 B)', 'MacsecHeader read vs from_slice (header bytes from 802.1AE TCI bits)', tier='quick', bound='none', timeout=300)
+harness('h_io::c06_read_vs_slice_macsec', ['C06', 'C15'], 'complete (0..=19 B)', 'MacsecHeader read vs from_slice (header bytes from 802.1AE TCI bits)', tier='quick', bound='none', timeout=300)
 harness('h_io::c16_read_fail_macsec', ['C16'], 'complete', 'MacsecHeader::read reader fault', tier='quick', bound='none', timeout=300)
 harness('h_io::c16_write_fail_macsec', ['C16'], 'complete', 'MacsecHeader::write writer fault', tier='quick', bound='none', timeout=300)
-harness('h_io::c06_read_vs_slice_ipv6', ['C06'], 'complete (0..=43 B)', 'Ipv6Header read vs from_slice incl. truncated+wrong version', tier='quick', bound='none', timeout=300)
+harness('h_io::c06_read_vs_slice_ipv6', ['C06', 'C15'], 'complete (0..=43 B)', 'Ipv6Header read vs from_slice incl. truncated+wrong version', tier='quick', bound='none', timeout=300)
 harness('h_io::c16_read_fail_ipv6', ['C16'], 'complete', 'Ipv6Header::read reader fault', tier='thorough', bound='none', timeout=300)
 harness('h_io::c16_write_fail_ipv6', ['C16'], 'complete', 'Ipv6Header::write writer fault', tier='thorough', bound='none', timeout=300)
-harness('h_io::c06_read_vs_slice_ipv6_fragment', ['C06'], 'complete (0..=11 B)', 'Ipv6FragmentHeader read vs from_slice', tier='quick', bound='none', timeout=300)
+harness('h_io::c06_read_vs_slice_ipv6_fragment', ['C06', 'C15'], 'complete (0..=11 B)', 'Ipv6FragmentHeader read vs from_slice', tier='quick', bound='none', timeout=300)
 harness('h_io::c16_read_fail_ipv6_fragment', ['C16'], 'complete', 'Ipv6FragmentHeader::read reader fault', tier='quick', bound='none', timeout=300)
 harness('h_io::c16_write_fail_ipv6_fragment', ['C16'], 'complete', 'Ipv6FragmentHeader::write writer fault', tier='quick', bound='none', timeout=300)
 harness('h_io::c06_read_vs_slice_udp', ['C06'], 'complete (0..=11 B)', 'UdpHeader read vs from_slice', tier='quick', bound='none', timeout=300)
@@ -293,7 +294,7 @@ harness('h_io::c16_write_fail_icmpv4', ['C16'], 'complete', 'Icmpv4Header::write
 harness('h_io::c06_read_vs_slice_icmpv6', ['C06'], 'complete (0..=11 B)', 'Icmpv6Header read vs from_slice', tier='quick', bound='none', timeout=300)
 harness('h_io::c16_read_fail_icmpv6', ['C16'], 'complete', 'Icmpv6Header::read reader fault', tier='quick', bound='none', timeout=300)
 harness('h_io::c16_write_fail_icmpv6', ['C16'], 'complete', 'Icmpv6Header::write writer fault', tier='quick', bound='none', timeout=300)
-harness('h_io::c06_read_vs_slice_ipv4', ['C06'], 'complete (0..=62 B, every IHL, unwind 42 with unwinding assertions)', 'Ipv4Header read vs from_slice', tier='quick', bound='none', timeout=300)
+harness('h_io::c06_read_vs_slice_ipv4', ['C06', 'C15'], 'complete (0..=62 B, every IHL, unwind 42 with unwinding assertions)', 'Ipv4Header read vs from_slice', tier='quick', bound='none', timeout=300)
 harness('h_io::c16_read_fail_ipv4', ['C16'], 'complete', 'Ipv4Header::read reader fault (20..=60 B encodings)', tier='quick', bound='none', timeout=300)
 harness('h_io::c16_write_fail_ipv4_raw', ['C16'], 'complete', 'Ipv4Header::write_raw writer fault, header+options pieces, prefix', tier='thorough', bound='none', timeout=300)
 harness('h_io::c16_write_fail_ipv4', ['C16'], 'complete', 'Ipv4Header::write (with checksum calc) writer fault', tier='thorough', bound='none', timeout=3160)
@@ -391,3 +392,8 @@ harness('h_pairs::c04_slim_ip_v6_udp', ['C04', 'C02'], 'bounded (all inputs 1..=
 harness('h_pairs::c04_lax_headers_vs_sliced_ip_v4_udp', ['C04', 'C05'], 'bounded (all inputs 1..=40 B, b[0]==0x45, UDP)', 'LaxPacketHeaders::from_ip vs LaxSlicedPacket::from_ip: same stop error, transport kind, UDP fields, payload byte range', tier='quick', bound='N=40, unwind 4', timeout=1200)
 harness('h_pairs::c04_lax_headers_vs_sliced_ip_v4_tcp', ['C04', 'C05'], 'bounded (all inputs 1..=44 B, b[0]==0x45, TCP)', 'same, TCP', tier='thorough', bound='N=44, unwind 4', timeout=1500)
 harness('h_pairs::c04_lax_headers_vs_sliced_ip_v6_udp', ['C04', 'C05'], 'bounded (all inputs 1..=56 B, b[0]==0x60, next header UDP)', 'same, IPv6', tier='thorough', bound='N=56, unwind 4', timeout=1500)
+harness('h_pairs::p_ext_struct_walk_lax', ['C04', 'C05', 'C07'], 'bounded (all chains <= 24 B, <= 3 headers, unwind 5)', 'Ipv6Extensions::from_slice_lax == reference struct walk up to its first fault, stop error == that fault (check of the assumed contract)', tier='thorough', bound='24 B', timeout=3600)
+
+# ---- C05 at the link-extension level ----------------------------------------------------------------------------------------------
+harness('h_pairs::c05_link_exts_macsec', ['C05'], 'bounded (all inputs <= 24 B behind ether type MACsec)', 'strict slicing Ok ==> lax slicing returns the same link extensions (kind, header bytes, payload bytes), no stop error, nothing incomplete', tier='thorough', bound='N=24, unwind 5', timeout=2400, heavy=True)
+harness('h_pairs::c05_link_exts_vlan', ['C05'], 'bounded (all inputs <= 16 B behind ether type VLAN)', 'same, stacked VLAN tags', tier='thorough', bound='N=16, unwind 5', timeout=2400, heavy=True)
